@@ -1,14 +1,16 @@
 // C03 harness: crash points of a real volume.
 //
-// A generated history (writes, overwrites, repeated writes, wrong-cookie writes, deletes over 3
-// keys) is run on a real storage.Store volume (needle version 3, in-memory needle map).  The
-// volume is unmounted, its .dat and .idx are read, and for every crash point (bytes kept of the
-// .dat, bytes kept of the .idx) the truncated copies are mounted again under a new volume id
-// with the real Store.MountVolume (-> DiskLocation.loadExistingVolume -> NewVolume -> load ->
-// CheckAndFixVolumeDataIntegrity -> needle map loading).  Observed per crash point: load outcome
-// (loaded / refused / run-time panic), Volume.IsReadOnly, sizes of both files on disk, a read of
-// every key (error class or cookie+content), a fresh write through Store.WriteVolumeNeedle and
-// its read-back, the file sizes afterwards.
+// A generated history (writes, overwrites, repeated writes, wrong-cookie writes, empty payloads,
+// deletes over 3 keys) is run on a real storage.Store volume (needle version 3, in-memory needle
+// map).  The volume is unmounted, its .dat and .idx are read, and for every crash point (bytes
+// kept of the .dat, bytes kept of the .idx) the truncated copies are mounted again under a new
+// volume id with the real Store.MountVolume (-> DiskLocation.loadExistingVolume -> NewVolume ->
+// load -> CheckAndFixVolumeDataIntegrity -> needle map loading).  Observed per crash point, in
+// three stages: (1) load outcome (loaded / refused / run-time panic), Volume.IsReadOnly, sizes of
+// both files on disk, a read of every key (error class or cookie+content); (2) further operations
+// through Store.WriteVolumeNeedle / DeleteVolumeNeedle on the keys of the history and a fresh key,
+// their answers, a read of every key, the file sizes; (3) a second stop (UnmountVolume, the .idx
+// cut by 0..25 bytes), a second MountVolume, and the same observations.
 package main
 
 import (
